@@ -31,7 +31,7 @@ CHECKS["C01"] = {
     "rule": "case = (content kind/length/seed, writer configuration with legal setter order, write(n)/end_chunk history, cyclic read sizes, descriptors 0-2 closed before init). Non-trivial = >= 2 data chunks, or chunk max/dictionary/uncompressed-source flag set, or descriptors closed; distinct by hash of the choice sequence.",
     "assumptions": ["reference decoder is correct", "a configuration refused by a setter and a failing zck_close are outside the property's premise"],
     "runs": [
-        {"bin": "asan/C01", "cases": P(260, 4000), "procs": P(8, 16), "size": P(60, 100), "cpu_limit": 120, "shrink_budget": 150},
+        {"bin": "asan/C01", "cases": P(260, 2500), "procs": P(8, 16), "size": P(60, 100), "cpu_limit": 120, "shrink_budget": 150},
         {"kind": "script", "bin": "props/C01_tools.py", "cases": P(70, 1500), "procs": P(6, 16)},
     ],
     "extra_targets": ["asan/tools/zck", "asan/tools/unzck", "asan/tools/zck_read_header"],
@@ -87,14 +87,16 @@ CHECKS["C15"] = {
 
 CHECKS["C16"] = {
     "level": "exploration",
-    "technique": "metamorphic relations over generated (content, configuration, two write segmentations, edit): identical output across segmentations and repeated runs; prefix/suffix chunk identity between original and edited content; automatic chunk sizes within the effective bounds",
+    "technique": "metamorphic relations over generated (content, configuration, two write segmentations, edit): identical output across segmentations and repeated runs; prefix/suffix chunk identity between original and edited content; automatic chunk sizes within the effective bounds; tool level (Hypothesis): zck on a regular file vs the same content through a FIFO in generated read segmentations gives identical archives, and P1+S / P2+S with S starting at the split string share all chunks from S on",
     "level_text": "Generated contents up to 1 MiB (thorough 3 MiB) with several automatic boundaries (hash-triggered on random data, max-triggered on low-entropy data), none/zstd, optional dictionary, manual and automatic chunking with generated min/max, two independent write segmentations (one big write, tiny writes, block-edge sizes, random cuts) and an insert/delete/replace edit at the start, middle or end. Four relations are asserted per case. Sampled; no enumeration.",
     "level_note": "Trusted: reference header parser for the chunk tables. Effective bounds mirror the documented rule avg/4..avg*4 clamped by the configured min/max (avg = 32 KiB), with the configured limits winning when they conflict.",
     "rule": "case = (content kind/length/seed, configuration, end_chunk offsets, two write-cut lists, edit). Non-trivial = >= 3 data chunks, at least one chunk asserted identical across the original/edited pair (prefix or suffix), and the two write histories differ. Distinct by choice-sequence hash.",
     "assumptions": ["in manual mode both histories call end_chunk at the same content offsets", "bounds relation only for automatic mode without explicit end_chunk calls"],
     "runs": [
         {"bin": "asan/C16", "cases": P(400, 3000), "procs": P(8, 16), "size": P(60, 100), "shrink_budget": 80},
+        {"kind": "script", "bin": "props/C16_tools.py", "cases": P(120, 1500), "procs": P(4, 16)},
     ],
+    "extra_targets": ["asan/tools/zck", "asan/tools/zck_read_header"],
 }
 
 CHECKS["C13"] = {
